@@ -12,6 +12,7 @@ CXX = os.environ.get('VERIF_CXX', 'g++')
 MODES = {
     'exact': ['-O1'],
     'o0': ['-O0'],
+    'raw': [],
     'chk': ['-O1', '-DBSPLINE_ADD_TEST_CHECKS', '-DVF_CHK'],
     'san': ['-O1', '-g', '-fsanitize=address,undefined', '-fno-sanitize-recover=undefined',
             '-fno-omit-frame-pointer', '-D_GLIBCXX_DEBUG', '-DVF_SAN'],
@@ -28,9 +29,9 @@ def base_flags():
             '-I', os.path.join(VERIF, 'checks'), '-Wall', '-Wno-unused', '-Wno-sign-compare', '-fmax-errors=5']
 
 
-def unit(name, src, mode='exact', shards=NCPU, args=None, flags=None, libs=None, cxx=None, env=None, kind='harness'):
+def unit(name, src, mode='exact', shards=NCPU, args=None, flags=None, libs=None, cxx=None, env=None, kind='harness', group=None):
     return dict(name=name, src=src, mode=mode, shards=shards, args=args or [], flags=flags or [],
-                libs=libs or [], cxx=cxx, env=env or {}, kind=kind)
+                libs=libs or [], cxx=cxx, env=env or {}, kind=kind, group=group)
 
 
 _tree_hash = {}
@@ -221,7 +222,7 @@ def run_check(cid, tier, cfg):
             continue
         tot['evaluations'] += data['evaluations']
         tot['duplicates'] += data['duplicates']
-        gk = (str(u['src']), tuple(u['args']), tuple(u['flags']))
+        gk = u.get('group') or (str(u['src']), tuple(u['args']), tuple(u['flags']))
         per_unit.setdefault(gk, {}).setdefault(u['name'], 0)
         per_unit[gk][u['name']] += data['nontrivial'] - data['duplicates']
         tot['total_cases'][u['name']] = data['total_cases']
